@@ -149,7 +149,13 @@ def semantic_entry_keys(ctx, F, cl, env_of=None):
     q, s = qs(ip)
     env = {}
     for i, u in enumerate(cl.get('upvars') or []):
-        env[i] = q if 'query' in u['name'] else s
+        if 'query' in u['name'] or 'shift' in u['name']:
+            env[i] = q if 'query' in u['name'] else s
+        else:
+            ty = (u.get('ty') or '').strip()
+            base = ty.lstrip('&').replace('mut ', '', 1).strip()
+            v0 = RF.sym('capture.' + u['name']) if I.is_scalar_ty(base) else I.Sym(nf.sym_atom('capture.' + u['name']), base)
+            env[i] = ip.ref_to(v0) if ty.startswith('&') else v0
     gs = gen_sym()
     child = I.Sym(nf.sym_atom('child'), 'rstar::RTreeNode<voronoi::generator::Generator>')
     v, _ = ip.call_body(cl, [ip.ref_to(I.St('closure:' + cl['path'], None, env), mut=True), ip.ref_to(child)])
@@ -222,7 +228,11 @@ def r2(ctx, F, rule, sfx):
     for i, u in enumerate(cl.get('upvars') or []):
         env[i] = q if 'query' in u['name'] else s if 'shift' in u['name'] else None
         if env[i] is None:
-            raise AnalysisIncomplete('unexpected capture %s in the heap-entry closure' % u['name'])
+            # any other capture (a cut-off, a flag, ...) is a free symbol: whatever it is, it must not decide whether a child gets an entry
+            ty = (u.get('ty') or '').strip()
+            base = ty.lstrip('&').replace('mut ', '', 1).strip()
+            v0 = RF.sym('capture.' + u['name']) if I.is_scalar_ty(base) else I.Sym(nf.sym_atom('capture.' + u['name']), base)
+            env[i] = ip.ref_to(v0) if ty.startswith('&') else v0
     child = I.Sym(nf.sym_atom('child'), 'rstar::RTreeNode<voronoi::generator::Generator>')
     v, _ = ip.call_body(cl, [ip.ref_to(I.St('closure:' + cl['path'], None, env), mut=True), ip.ref_to(child)])
     ctx.evaluations += ip.evaluations
